@@ -202,6 +202,16 @@ Definition accepts (cfg : params) (o : offer) : bool := is_opt (fresh cfg o).
 
 (* ================= the SPEC ================= *)
 
+(* a handshake answers every offer as a new negotiator would, up to and including the
+   first offer such a negotiator accepts; every later offer gets the empty answer *)
+Fixpoint first_acceptable (cfg : params) (offers : list offer) : list answer :=
+  match offers with
+  | [] => []
+  | o :: r =>
+      let a := fresh cfg o in
+      a :: (if is_opt a then map (fun _ => AEmpty) r else first_acceptable cfg r)
+  end.
+
 Fixpoint memb (k : list byte) (ks : list (list byte)) : bool :=
   match ks with [] => false | x :: r => bytes_eqb k x || memb k r end.
 Fixpoint nodupb (ks : list (list byte)) : bool :=
@@ -311,6 +321,18 @@ Fixpoint c14_history_monitor (acc : bool) (steps : list (option (answer * answer
   | Some (fr, seq) :: r =>
       if acc then answer_eqb seq AEmpty && c14_history_monitor true r
       else answer_eqb seq fr && c14_history_monitor (is_opt fr) r
+  end.
+(* pairs a script and the answers observed for it with the answers of new negotiators *)
+Fixpoint history_steps (cfg : params) (ops : list op) (answers : list answer)
+  : list (option (answer * answer)) :=
+  match ops with
+  | [] => []
+  | OReset :: r => None :: history_steps cfg r answers
+  | ONeg o :: r =>
+      match answers with
+      | a :: ar => Some (fresh cfg o, a) :: history_steps cfg r ar
+      | [] => []
+      end
   end.
 Definition count_opts (l : list answer) : nat := length (filter is_opt l).
 
